@@ -132,34 +132,89 @@ theorem as_found_nil_resp_digest_panics :
                       reqResp := [[.digest true (.fail (.stage 2))]] }).isCrash = true := by
   decide
 
+/-- The response a verb-style entry point hands back: the one `Do` returned, after the `OnError`
+hook — which is handed the response and may rewrite `resp.Err` — if it fired. -/
+def afterHook (s : Stack) (r : Resp) : Resp :=
+  if s.entry ≠ .do_ ∧ (r.err.isSome && s.hook) = true then applyHook r s.hookAct else r
+
+theorem afterHook_same (s : Stack) (r : Resp) :
+    (afterHook s r).http = r.http ∧ (afterHook s r).slots = r.slots ∧ (afterHook s r).tag = r.tag ∧
+    (afterHook s r).bodyCached = r.bodyCached ∧ (afterHook s r).bodyOf = r.bodyOf := by
+  unfold afterHook
+  split
+  · exact applyHook_same r _
+  · exact ⟨rfl, rfl, rfl, rfl, rfl⟩
+
+/-- What `run` answers once `do` has returned `r0`. -/
+theorem run_shape (fx : Fixes) (s : Stack) (r0 : Resp) (hc : (callDo fx s).crash = false)
+    (hx : (callDo fx s).exhausted = false) (hr : (callDo fx s).resp = some r0) :
+    run fx s =
+      match s.entry, (afterHook s r0).err with
+      | .do_, _ => .ret (some r0) r0.err 0 (callDo fx s).atts
+      | .must, some e => .mustPanic e (if (r0.err.isSome && s.hook) = true then 1 else 0) (callDo fx s).atts
+      | _, _ => .ret (some (afterHook s r0)) (afterHook s r0).err
+                  (if (r0.err.isSome && s.hook) = true then 1 else 0) (callDo fx s).atts := by
+  unfold run afterHook
+  simp only [hc, hx, hr, Bool.false_eq_true, if_false]
+  cases he : s.entry <;> simp <;>
+    (try (generalize (if r0.err.isSome = true ∧ s.hook = true then applyHook r0 s.hookAct else r0) = x
+          cases x.err <;> rfl))
+
 /-- **resp_nonnil_and_err_agree** — every call that returns hands back a non-nil response, and
-the error it returns is the one recorded in that response (`Do` returns no error value: the
-model reports `resp.Err`); a `Must*` call panics exactly with the recorded error. Holds for every
-variant that has the nil guard (the as-found code can crash instead, see above). -/
+the error it returns is the one recorded in that response AT RETURN — also when the `OnError`
+hook or a retry hook rewrote or cleared `resp.Err` (`Do` returns no error value: the model
+reports `resp.Err`); a `Must*` call panics exactly with the error recorded after the hook ran, and
+returns normally when the hook cleared it. Holds for every variant that has the nil guard. -/
 theorem resp_nonnil_and_err_agree (s : Stack) :
     match run Fixes.all s with
     | .ret resp err _ _ => ∃ r, resp = some r ∧ err = r.err ∧ (s.entry = .must → err = none)
-    | .mustPanic e _ _ => s.entry = .must ∧ ∃ r, (callDo Fixes.all s).resp = some r ∧ r.err = some e
+    | .mustPanic e _ _ => s.entry = .must ∧ ∃ r0, (callDo Fixes.all s).resp = some r0 ∧ (afterHook s r0).err = some e
     | .crash _ => False
     | .exhausted _ => s.unbounded = true := by
   obtain ⟨hc, hr⟩ := callDo_some Fixes.all rfl rfl s
-  unfold run
-  simp only [hc, Bool.false_eq_true, if_false]
   cases hex : (callDo Fixes.all s).exhausted
-  · obtain ⟨r, hr⟩ := Option.isSome_iff_exists.mp (hr hex)
-    simp only [hr, Bool.false_eq_true, if_false]
+  · obtain ⟨r0, hr0⟩ := Option.isSome_iff_exists.mp (hr hex)
+    rw [run_shape Fixes.all s r0 hc hex hr0]
     cases he : s.entry <;> simp only []
-    · exact ⟨r, rfl, rfl, by simp⟩
-    · exact ⟨r, rfl, rfl, by simp⟩
-    · exact ⟨r, rfl, rfl, by simp⟩
-    · cases hre : r.err with
-      | none => exact ⟨r, rfl, by simp [hre], by simp⟩
-      | some e => exact ⟨by simp, r, rfl, hre⟩
-  · simp only [if_true]
+    · exact ⟨r0, rfl, rfl, by simp⟩
+    · exact ⟨_, rfl, rfl, by simp⟩
+    · exact ⟨_, rfl, rfl, by simp⟩
+    · cases hre : (afterHook s r0).err with
+      | none => exact ⟨_, rfl, by simp [hre], by simp⟩
+      | some e => exact ⟨trivial, r0, hr0, hre⟩
+  · unfold run
+    simp only [hc, hex, Bool.false_eq_true, if_false, if_true]
     cases hb : s.unbounded
     · have := callDo_bounded_not_exhausted Fixes.all s hb
       rw [this] at hex; cases hex
     · rfl
+
+/-- **recorded_equals_returned_after_hooks** — for EVERY behaviour of the hooks (the `OnError`
+hook replacing `resp.Err` by another error, clearing it, or leaving it; retry hooks doing the
+same on any attempt) and every other stage, entry point and loop script: the error a call
+returns is the error recorded in the response it returns, and a `Must*` call panics iff an error
+is recorded after the hook ran, with exactly that error. -/
+theorem recorded_equals_returned_after_hooks (s : Stack) (h : HookAct) (rh : List HookAct) :
+    match run Fixes.all { s with hookAct := h, retryHooks := rh } with
+    | .ret resp err _ _ => ∃ r, resp = some r ∧ err = r.err
+    | .mustPanic e _ _ => ∃ r0, (callDo Fixes.all { s with hookAct := h, retryHooks := rh }).resp = some r0 ∧
+        (afterHook { s with hookAct := h, retryHooks := rh } r0).err = some e
+    | .crash _ => False
+    | .exhausted _ => s.unbounded = true := by
+  have := resp_nonnil_and_err_agree { s with hookAct := h, retryHooks := rh }
+  revert this
+  cases run Fixes.all { s with hookAct := h, retryHooks := rh } with
+  | ret resp err hooks atts => rintro ⟨r, h1, h2, _⟩; exact ⟨r, h1, h2⟩
+  | mustPanic e hooks atts => rintro ⟨_, r0, h1, h2⟩; exact ⟨r0, h1, h2⟩
+  | crash atts => exact id
+  | exhausted atts => exact id
+
+/-- the hook translates the error: the caller gets the translated one, recorded and returned -/
+example : run Fixes.all { entry := .verb, hook := true, hookAct := .set (.stage 9), transport := [.fail (.stage 1)] }
+    matches .ret (some { err := some (.stage 9), .. }) (some (.stage 9)) 1 _ := by decide
+/-- the hook recovers: no error returned, none recorded, `Must*` does not panic -/
+example : run Fixes.all { entry := .must, hook := true, hookAct := .clear, transport := [.fail (.stage 1)] }
+    matches .ret (some { err := none, .. }) none 1 _ := by decide
 
 /-- The same for a call whose attempt loop is unbounded (`SetRetryCount(-1)`), whose context is
 cancelled mid-flight or done while waiting: every outcome script that lets the call end. -/
@@ -172,17 +227,25 @@ example : run Fixes.all { entry := .verb, hook := true, unbounded := true, fuel 
 never otherwise: not for `Do`, not for a call without error, not once per attempt or per
 failing stage. Holds for every code variant. -/
 theorem onError_once (fx : Fixes) (s : Stack) :
+    let doErr := (callDo fx s).resp.bind (·.err)      -- the error `Do` ended with, before any hook
     match run fx s with
-    | .ret _ err hooks _ => hooks = if s.entry ≠ .do_ ∧ s.hook = true ∧ err ≠ none then 1 else 0
-    | .mustPanic _ hooks _ => hooks = if s.hook = true then 1 else 0
+    | .ret _ _ hooks _ => hooks = if s.entry ≠ .do_ ∧ s.hook = true ∧ doErr ≠ none then 1 else 0
+    | .mustPanic _ hooks _ => hooks = if s.hook = true ∧ doErr ≠ none then 1 else 0
     | .crash _ => True
     | .exhausted _ => True := by
-  unfold run
-  cases hc : (callDo fx s).crash <;> simp only [hc, Bool.false_eq_true, if_false, if_true]
-  cases hx : (callDo fx s).exhausted <;> simp only [Bool.false_eq_true, if_false, if_true]
-  cases hr : (callDo fx s).resp with
-  | none => simp only []
-  | some r => cases he : s.entry <;> cases hh : s.hook <;> cases hre : r.err <;> simp [hre]
+  intro doErr
+  cases hc : (callDo fx s).crash
+  · cases hx : (callDo fx s).exhausted
+    · cases hr : (callDo fx s).resp with
+      | none => unfold run; simp [hc, hx, hr]
+      | some r0 =>
+        rw [run_shape fx s r0 hc hx hr]
+        have hd : doErr = r0.err := by simp [doErr, hr]
+        rw [hd]
+        cases he : s.entry <;> cases hh : s.hook <;> cases hre : r0.err <;> simp <;>
+          (cases (afterHook s r0).err <;> simp)
+    · unfold run; simp [hc, hx]
+  · unfold run; simp [hc]
 
 example : run Fixes.all { entry := .verb, hook := true, maxRetries := 2, clientResp := [[.ret (.stage 1), .ret (.stage 1), .ret (.stage 1)]],
                           transport := [.fail (.stage 2)] } matches .ret _ (some (.stage 1)) 1 [_, _, _] := by decide
@@ -197,13 +260,17 @@ def callErr : Out → Option Err
   | .exhausted _ => none
 
 theorem run_callErr (s : Stack) (hex : (callDo Fixes.all s).exhausted = false) :
-    ∃ r, (callDo Fixes.all s).resp = some r ∧ callErr (run Fixes.all s) = r.err := by
+    ∃ r, (callDo Fixes.all s).resp = some r ∧ callErr (run Fixes.all s) = (afterHook s r).err := by
   obtain ⟨hc, hr⟩ := callDo_some Fixes.all rfl rfl s
   obtain ⟨r, hr⟩ := Option.isSome_iff_exists.mp (hr hex)
   refine ⟨r, hr, ?_⟩
-  unfold run
-  simp only [hc, hex, hr, Bool.false_eq_true, if_false]
-  cases he : s.entry <;> cases hre : r.err <;> simp [callErr]
+  rw [run_shape Fixes.all s r hc hex hr]
+  cases he : s.entry <;> simp only [callErr]
+  · simp [afterHook, he]
+  · cases (afterHook s r).err <;> rfl
+
+theorem afterHook_nop (s : Stack) (r : Resp) (h : s.hookAct = .nop) : afterHook s r = r := by
+  unfold afterHook; split <;> simp [h, applyHook]
 
 theorem run_exhausted (fx : Fixes) (s : Stack) : isExhausted (run fx s) = false → (callDo fx s).crash = false →
     (callDo fx s).exhausted = false := by
@@ -222,7 +289,8 @@ request-level response middleware returning an error or setting `resp.Err`, a wr
 digest middleware — the caller sees an error; (2) the error the caller sees is one that a stage
 raised during the call (or the builder / unreplayable-body error of `Do`, before any attempt).
 Which one wins when several stages fail is stated by the `precedence_*` theorems. -/
-theorem stage_error_is_seen (s : Stack) (hl : s.Loud) (hend : isExhausted (run Fixes.all s) = false) :
+theorem stage_error_is_seen (s : Stack) (hl : s.Loud) (hend : isExhausted (run Fixes.all s) = false)
+    (hh : s.hookAct = .nop) (hrh : ∀ a, s.retryHookAt a = .nop) :
     (∀ tl, (run Fixes.all s).atts.getLast? = some tl → raisedOf tl.evs ≠ [] →
         callErr (run Fixes.all s) ≠ none) ∧
     (∀ e, callErr (run Fixes.all s) = some e →
@@ -230,6 +298,7 @@ theorem stage_error_is_seen (s : Stack) (hl : s.Loud) (hend : isExhausted (run F
         ((run Fixes.all s).atts = [] ∧ (e = .builder ∨ e = .unreplayable))) := by
   have hex := run_exhausted Fixes.all s hend (callDo_some Fixes.all rfl rfl s).1
   obtain ⟨r, hr, hce⟩ := run_callErr s hex
+  rw [afterHook_nop s r hh] at hce
   rw [run_atts, hce]
   rcases callDo_cases Fixes.all s with ⟨e0, he0, hcd⟩ | hcd
   · rw [hcd] at hr ⊢
@@ -239,7 +308,7 @@ theorem stage_error_is_seen (s : Stack) (hl : s.Loud) (hend : isExhausted (run F
     simp only [Option.some.injEq] at he; subst he
     exact Or.inr (Or.inr ⟨rfl, he0⟩)
   · rw [hcd] at hr hex ⊢
-    obtain ⟨r', tl, h1, h2, h3, h4⟩ := doLoop_seen s hl s.fuelFor 0 none hex
+    obtain ⟨r', tl, h1, h2, h3, h4⟩ := doLoop_seen s hl hrh s.fuelFor 0 none hex
     rw [h1] at hr; cases hr
     refine ⟨?_, ?_⟩
     · intro tl' htl; rw [h2] at htl; cases htl; exact h3
@@ -252,11 +321,12 @@ theorem stage_error_is_seen (s : Stack) (hl : s.Loud) (hend : isExhausted (run F
 /-- Corollary: when every error raised during the call is the same `e` and the final attempt
 raised it, the caller sees exactly `e`. -/
 theorem single_error_is_the_error (s : Stack) (hl : s.Loud) (hend : isExhausted (run Fixes.all s) = false)
+    (hh : s.hookAct = .nop) (hrh : ∀ a, s.retryHookAt a = .nop)
     (hctx : ∀ a, s.ctxDoneAt a = false) (e : Err) (tl : Att)
     (hlast : (run Fixes.all s).atts.getLast? = some tl) (hraised : raisedOf tl.evs ≠ [])
     (hsame : ∀ e' ∈ allRaised (run Fixes.all s).atts, e' = e) :
     callErr (run Fixes.all s) = some e ∨ callErr (run Fixes.all s) = some .ctxDone := by
-  obtain ⟨h1, h2⟩ := stage_error_is_seen s hl hend
+  obtain ⟨h1, h2⟩ := stage_error_is_seen s hl hend hh hrh
   have hne := h1 tl hlast hraised
   cases hc : callErr (run Fixes.all s) with
   | none => exact absurd hc hne
@@ -364,17 +434,34 @@ theorem download_off (s : Stack) (a : Nat) (r : Resp) (h : s.save = false) : dow
     · rw [h1, h2]; simp
 
 theorem callResp_callDo (fx : Fixes) (s : Stack) (r : Resp) (h : callResp (run fx s) = some r) :
-    (callDo fx s).resp = some r := by
-  unfold run at h
-  cases hc : (callDo fx s).crash <;> simp only [hc, Bool.false_eq_true, if_false, if_true] at h
-  · cases hx : (callDo fx s).exhausted <;> simp only [hx, Bool.false_eq_true, if_false, if_true] at h
+    ∃ r0, (callDo fx s).resp = some r0 ∧ r = afterHook s r0 := by
+  cases hc : (callDo fx s).crash
+  · cases hx : (callDo fx s).exhausted
     · cases hr : (callDo fx s).resp with
-      | none => simp [hr, callResp] at h
+      | none => unfold run at h; simp [hc, hx, hr, callResp] at h
       | some r0 =>
-        simp only [hr] at h
-        cases he : s.entry <;> cases hre : r0.err <;> simp_all [callResp]
-    · simp [callResp] at h
-  · simp [callResp] at h
+        rw [run_shape fx s r0 hc hx hr] at h
+        refine ⟨r0, rfl, ?_⟩
+        cases he : s.entry <;> simp only [he] at h
+        · simp only [callResp, Option.some.injEq] at h; rw [← h]; simp [afterHook, he]
+        · simp only [callResp, Option.some.injEq] at h; exact h.symm
+        · simp only [callResp, Option.some.injEq] at h; exact h.symm
+        · cases hre : (afterHook s r0).err with
+          | none => simp only [hre, callResp, Option.some.injEq] at h; exact h.symm
+          | some e => simp [hre, callResp] at h
+    · unfold run at h; simp [hc, hx, callResp] at h
+  · unfold run at h; simp [hc, callResp] at h
+
+/-- The hooked response reports no error although the hook did not clear one: `Do` reported none. -/
+theorem afterHook_err_none (s : Stack) (r0 : Resp) (h : (afterHook s r0).err = none) (hcl : s.hookAct ≠ .clear) :
+    r0.err = none := by
+  unfold afterHook at h
+  split at h
+  · cases ha : s.hookAct with
+    | nop => rw [ha] at h; exact h
+    | set e => rw [ha] at h; simp [applyHook] at h
+    | clear => exact absurd ha hcl
+  · exact h
 
 /-- **success_bound_iff (call level)** — on the response any call returns, for every stack: if
 the success result is populated then a target was supplied and the http response the caller
@@ -382,22 +469,26 @@ holds is in the success state, is not a 204, reads and unmarshals; and whenever 
 reports no error the converse holds too. -/
 theorem success_bound_call (s : Stack) (r : Resp) (hr : callResp (run Fixes.all s) = some r) :
     (r.slots.result = true → ∃ h, r.http = some h ∧ SuccessRHS s h) ∧
-    (r.err = none → (r.slots.result = true ↔ ∃ h, r.http = some h ∧ SuccessRHS s h)) := by
-  have hf := callDo_final s r (callResp_callDo _ s r hr)
-  have sound : Agrees s r → (r.slots.result = true ↔ ∃ h, r.http = some h ∧ SuccessRHS s h) := by
+    (r.err = none → s.hookAct ≠ .clear → (r.slots.result = true ↔ ∃ h, r.http = some h ∧ SuccessRHS s h)) := by
+  obtain ⟨r0, hr0, rfl⟩ := callResp_callDo _ s r hr
+  obtain ⟨k1, k2, _⟩ := afterHook_same s r0
+  rw [k1, k2]
+  have hf := callDo_final s r0 hr0
+  have sound : Agrees s r0 → (r0.slots.result = true ↔ ∃ h, r0.http = some h ∧ SuccessRHS s h) := by
     intro ha
     unfold Agrees at ha
-    rcases hh : r.http with _ | h
+    rcases hh : r0.http with _ | h
     · rw [hh] at ha; simp [ha]
     · rw [hh] at ha; simp [ha.1]
   refine ⟨?_, ?_⟩
   · rcases hf with ha | ⟨h1, _⟩
     · exact (sound ha).mp
     · intro h; rw [h1] at h; cases h
-  · intro he
+  · intro he hcl
+    have he0 := afterHook_err_none s r0 he hcl
     rcases hf with ha | ⟨_, h2⟩
     · exact sound ha
-    · exact absurd he h2
+    · exact absurd he0 h2
 
 /-- **error_bound_iff (call level)** — likewise for the error result: the request-level target
 when one was supplied, an object of the client-level common error type only when none was. -/
@@ -405,23 +496,26 @@ theorem error_bound_call (s : Stack) (r : Resp) (hr : callResp (run Fixes.all s)
     (r.slots.error = some .errorReq → ∃ h, r.http = some h ∧ ErrReqRHS s h) ∧
     (r.slots.error = some .errorCommon → ∃ h, r.http = some h ∧ ErrCommonRHS s h) ∧
     r.slots.error ≠ some .success ∧
-    (r.err = none →
+    (r.err = none → s.hookAct ≠ .clear →
       (r.slots.error = some .errorReq ↔ ∃ h, r.http = some h ∧ ErrReqRHS s h) ∧
       (r.slots.error = some .errorCommon ↔ ∃ h, r.http = some h ∧ ErrCommonRHS s h)) := by
-  have hf := callDo_final s r (callResp_callDo _ s r hr)
-  have sound : Agrees s r →
-      (r.slots.error = some .errorReq ↔ ∃ h, r.http = some h ∧ ErrReqRHS s h) ∧
-      (r.slots.error = some .errorCommon ↔ ∃ h, r.http = some h ∧ ErrCommonRHS s h) ∧
-      r.slots.error ≠ some .success := by
+  obtain ⟨r0, hr0, rfl⟩ := callResp_callDo _ s r hr
+  obtain ⟨k1, k2, _⟩ := afterHook_same s r0
+  rw [k1, k2]
+  have hf := callDo_final s r0 hr0
+  have sound : Agrees s r0 →
+      (r0.slots.error = some .errorReq ↔ ∃ h, r0.http = some h ∧ ErrReqRHS s h) ∧
+      (r0.slots.error = some .errorCommon ↔ ∃ h, r0.http = some h ∧ ErrCommonRHS s h) ∧
+      r0.slots.error ≠ some .success := by
     intro ha
     unfold Agrees at ha
-    rcases hh : r.http with _ | h
+    rcases hh : r0.http with _ | h
     · rw [hh] at ha; simp [ha]
     · rw [hh] at ha; simp [ha.2.1, ha.2.2.1, ha.2.2.2]
   rcases hf with ha | ⟨h1, h2⟩
   · obtain ⟨a, b, c⟩ := sound ha
-    exact ⟨a.mp, b.mp, c, fun _ => ⟨a, b⟩⟩
-  · refine ⟨by simp [h1], by simp [h1], by simp [h1], fun he => absurd he h2⟩
+    exact ⟨a.mp, b.mp, c, fun _ _ => ⟨a, b⟩⟩
+  · refine ⟨by simp [h1], by simp [h1], by simp [h1], fun he hcl => absurd (afterHook_err_none s r0 he hcl) h2⟩
 
 /-- **never_both (call level)** — no call ever returns a response with both the success result
 and the error result populated. -/
